@@ -16,7 +16,7 @@ Theorem C08_step :
   forall dbg it l c, rows_sim it l ->
   exists y s' q', icall_step dbg (SRows it) c = Ok (y, s') /\
                   ideal_call (QRows l) c = (y, q') /\ st_sim s' q'.
-Proof. intros dbg it l c H. exact (step_sim dbg (SRows it) (QRows l) c H). Qed.
+Proof. intros dbg it l c H. exact (step_sim dbg (SRows it) (QRows l) c H (call_ok_not_cells (SRows it) c eq_refl)). Qed.
 Print Assumptions C08_step.
 
 (** every finite interleaving of calls, of any length: every result equals the ideal
@@ -26,7 +26,7 @@ Theorem C08_history :
   exists o s' q' b',
     icalls dbg mutable k (SRows it) calls b = Ok (o, s', b') /\
     ideal_calls mutable k (QRows l) calls b = (o, q', b') /\ st_sim s' q'.
-Proof. intros dbg mu calls k it l b H. exact (history_sim dbg mu calls k (SRows it) (QRows l) b H). Qed.
+Proof. intros dbg mu calls k it l b H. exact (history_sim dbg mu calls k (SRows it) (QRows l) b H (calls_ok_not_cells (SRows it) calls eq_refl)). Qed.
 Print Assumptions C08_history.
 
 (** count, last, fold, rfold *)
